@@ -25,6 +25,7 @@ structure Link (env : Env) (file : AFile) (G : List String) (P : Prog) (F : GFil
   builtinSrc : ∀ b, b ∈ builtinNames → P.findFn b = none
   refSrc : ∀ b, b ∈ refNames → P.findFn b = none
   refGo : ∀ e, refTyOK env file (.ref e) = true → RefLink F e
+  tupGo : ∀ ts, tupleTyOK env file (.tuple ts) = true → TupLink F ts
   ty : TyLink env F
 
 /-- where the value of an assigned expression goes -/
